@@ -36,23 +36,55 @@ type input struct {
 	// longest operation of the batch (measured on a twin registry just before the batch runs).
 	// Absent = every goroutine runs flat out.
 	Gaps [][]float64 `json:"gaps,omitempty"`
+	// Rivals: what another client of the underlying registry does, directly on it, right after the
+	// forwarding value between wrapper and registry (wrap.go: spy) has served its After-th call
+	// of the history (mech "immutable" with a wrapping only).
+	Rivals []rival `json:"rivals,omitempty"`
+}
+
+type rival struct {
+	After int       `json:"after"`
+	Op    memsim.Op `json:"op"`
 }
 
 func (in input) immCfg() bool { return in.Mech == "immtags" || in.UnderImm }
 
-func build(in input) (under *ocimem.Registry, mech ociregistry.Interface) {
+func build(in input) (under *ocimem.Registry, mech ociregistry.Interface, sp *spy) {
 	under = ocimem.NewWithConfig(&ocimem.Config{ImmutableTags: in.immCfg()})
+	var x ociregistry.Interface
 	switch in.Mech {
 	case "readonly":
-		mech = ocifilter.ReadOnly(wrapAs(in.Wrap, under))
+		x, sp = wrapAs(in.Wrap, under)
+		mech = ocifilter.ReadOnly(x)
 	case "immutable":
-		mech = ocifilter.Immutable(wrapAs(in.Wrap, under))
+		x, sp = wrapAs(in.Wrap, under)
+		mech = ocifilter.Immutable(x)
 	case "immtags":
 		mech = under
 	default:
 		panic("unknown mechanism " + in.Mech)
 	}
+	if len(in.Rivals) > 0 {
+		if sp == nil || in.Mech != "immutable" {
+			panic("rivals need the Immutable wrapper over a forwarding value")
+		}
+		for _, rv := range in.Rivals {
+			sp.rivals[rv.After] = append(sp.rivals[rv.After], rv.Op)
+		}
+	}
 	return
+}
+
+// canonIn: the canonical name (memsim) of an upload id the registry handed out to executor ex
+func canonIn(ex *memsim.Exec) func(string) string {
+	return func(real string) string {
+		for i, w := range ex.Writers {
+			if w.ID() == real {
+				return ex.WriterCanonID(i)
+			}
+		}
+		return real
+	}
 }
 
 type probe struct {
@@ -179,6 +211,9 @@ func buildProbes(in input, ex *memsim.Exec) ([]probe, []memsim.Result) {
 		for _, o := range th {
 			u.op(o)
 		}
+	}
+	for _, rv := range in.Rivals {
+		u.op(rv.Op)
 	}
 	var ps []probe
 	var rs []memsim.Result
@@ -351,6 +386,18 @@ func steps(ops []memsim.Op, rs []memsim.Result) []step {
 	return out
 }
 
+// callKinds: the method names of the calls that reached the registry, per operation (readable only)
+func callKinds(trace [][]memsim.Op) [][]string {
+	out := make([][]string, len(trace))
+	for i, t := range trace {
+		out[i] = []string{}
+		for _, o := range t {
+			out[i] = append(out[i], o.Kind)
+		}
+	}
+	return out
+}
+
 func spin(d time.Duration) {
 	t0 := time.Now()
 	for time.Since(t0) < d {
@@ -376,7 +423,7 @@ func bucket(n int) string {
 // calibrate brings a twin registry to the state in which the batch starts and runs the
 // goroutines' operations on it one after the other; it returns the duration of the longest one.
 func calibrate(in input) time.Duration {
-	under, mech := build(in)
+	under, mech, _ := build(in)
 	exU := memsim.NewExec(under, true)
 	exM := exU
 	if in.Mech != "immtags" {
@@ -407,11 +454,14 @@ func calibrate(in input) time.Duration {
 
 // runCase executes one input on fresh registries and emits the case.
 func runCase(out *hx.Out, in input, origin string) {
-	under, mech := build(in)
+	under, mech, sp := build(in)
 	exU := memsim.NewExec(under, true)
 	exM := exU
 	if in.Mech != "immtags" {
 		exM = memsim.NewExec(mech, true)
+	}
+	if sp != nil {
+		sp.canonID = canonIn(exM)
 	}
 	or := memsim.NewOracles()
 	written := map[int][]byte{}
@@ -437,13 +487,31 @@ func runCase(out *hx.Out, in input, origin string) {
 	for i, p := range probes {
 		observe(p.Op, before[i])
 	}
+	for _, rv := range in.Rivals {
+		or.Observe(rv.Op)
+	}
 	var opsRes []memsim.Result
 	var direct []string
+	var trace [][]memsim.Op
 	for _, o := range in.Ops {
 		if o.Kind == "WCommit" {
 			or.Content(written[o.W])
 		}
+		nf := 0
+		if sp != nil {
+			sp.take()
+			nf = len(sp.fired)
+		}
 		r := exM.Run(o)
+		if sp != nil {
+			trace = append(trace, sp.take())
+			if len(sp.fired) > nf {
+				out.Count("rival:ops-with-rival")
+				if o.Kind == "PushManifest" && o.Tag != "" && r.Kind == "err" && r.Code == "DENIED" {
+					out.Count("rival:tagged-push-denied")
+				}
+			}
+		}
 		if o.Kind == "WWrite" && r.Kind == "n" {
 			written[o.W] = append(append([]byte{}, written[o.W]...), o.Content[:r.N]...)
 		}
@@ -524,10 +592,27 @@ func runCase(out *hx.Out, in input, origin string) {
 		thr[i] = coqEvents(in.Threads[i], thrRes[i])
 	}
 	mechCoq := map[string]string{"readonly": "MReadOnly", "immutable": "MImmutable", "immtags": "MImmTags"}[in.Mech]
+	rivCoq := make([]string, len(in.Rivals))
+	for i, rv := range in.Rivals {
+		rivCoq[i] = fmt.Sprintf("(%d%%N, %s)", rv.After, rv.Op.Coq())
+	}
+	traceCoq := "None"
+	var fired []rivalStep
+	if sp != nil {
+		ts := make([]string, len(trace))
+		for i := range trace {
+			ts[i] = coqOps(trace[i])
+		}
+		traceCoq = "(Some " + hx.List(ts) + ")"
+		fired = sp.fired
+		for _, f := range fired {
+			out.Count("rival-op:" + f.Op.Kind + "/" + f.Res.Kind)
+		}
+	}
 	coq := fmt.Sprintf("{| c_mech := %s; c_wrap := %s; c_under_imm := %s; c_orc := %s; c_setup := %s; c_setup_obs := %s; "+
-		"c_probes := %s; c_before := %s; c_ops := %s; c_obs := %s; c_direct := %s; c_threads := %s; c_after := %s |}",
+		"c_probes := %s; c_before := %s; c_rivals := %s; c_ops := %s; c_obs := %s; c_trace := %s; c_direct := %s; c_threads := %s; c_after := %s |}",
 		mechCoq, wrapCoq[in.Wrap], hx.Bool(in.UnderImm), or.Coq(), coqOps(in.Setup), coqResults(setupRes),
-		hx.List(pcoq), coqResults(before), coqOps(in.Ops), coqResults(opsRes), hx.List(direct), hx.List(thr), coqResults(after))
+		hx.List(pcoq), coqResults(before), hx.List(rivCoq), coqOps(in.Ops), coqResults(opsRes), traceCoq, hx.List(direct), hx.List(thr), coqResults(after))
 	thrSteps := make([][]step, len(in.Threads))
 	for i := range in.Threads {
 		thrSteps[i] = steps(in.Threads[i], thrRes[i])
@@ -544,7 +629,7 @@ func runCase(out *hx.Out, in input, origin string) {
 	}
 	if out.Add(hx.Case{Coq: internLiterals(coq),
 		Desc: map[string]any{"input": in, "origin": origin, "setup_trace": steps(in.Setup, setupRes),
-			"trace": steps(in.Ops, opsRes), "threads_trace": thrSteps,
+			"trace": steps(in.Ops, opsRes), "threads_trace": thrSteps, "rival_trace": fired, "backend_calls": callKinds(trace),
 			"probes_changed": changed, "probes": len(probes)},
 		Tags: map[string]any{"class": class, "mech": in.Mech}}) {
 		out.Count("mech:" + in.Mech)
@@ -558,6 +643,12 @@ func runCase(out *hx.Out, in input, origin string) {
 		}
 		if changed > 0 {
 			out.Count("snapshot-changed:" + in.Mech)
+		}
+		if len(in.Rivals) > 0 {
+			out.Count("with-rival:" + in.Mech + "/" + wrapCoq[in.Wrap])
+		}
+		if sp != nil {
+			out.Count("traced:" + in.Mech)
 		}
 	}
 }
